@@ -129,6 +129,13 @@ def run(ctx):
             if st != 'ok' or inn:
                 common.add_violation(ctx, 'a valid file raises', case, 'ok', '%s %s' % (st, inn))
                 continue
+            if rng.random() < 0.5:
+                # a CIF written before the edit below must not be what a later to_cif() writes again
+                try:
+                    with contextlib.redirect_stdout(io.StringIO()):
+                        shx.to_cif(os.path.join(tmp, 'before.cif'))
+                except Exception:
+                    pass
             if rng.random() < 0.3:
                 # an atom added through the API is appended behind everything the file held (also behind the Q-peaks)
                 xyz = [round(rng.uniform(0, 1), 5) for _ in range(3)]
